@@ -2,6 +2,7 @@ package capacity
 
 import (
 	"context"
+	"math"
 	"os"
 	"path/filepath"
 	"sync"
@@ -827,7 +828,12 @@ func (sk *SpaceKeeper) generateFillSpaceListByBitLength(dstList []*WorkSpace, cu
 	// check os disk size
 	var requiredOSDiskSize int
 	for bl, target := range targetCount {
-		requiredOSDiskSize += (target - currentCount[bl]) * int(poc.ProofTypeDefault.PlotSize(bl))
+		need, size := target-currentCount[bl], int(poc.ProofTypeDefault.PlotSize(bl))
+		if size > 0 && need > (math.MaxInt64-requiredOSDiskSize)/size {
+			// the product does not fit an int: certainly more than any disk holds
+			return nil, ErrOSDiskSizeNotEnough
+		}
+		requiredOSDiskSize += need * size
 	}
 	if err := sk.checkOSDiskSize(requiredOSDiskSize); err != nil {
 		return nil, err
